@@ -209,7 +209,7 @@ static void report_uninstantiable(const char* prog)
         if constexpr (c10_is_bad(D, S, L)) {
             vf::counted(true);
             vf::outcome("type_does_not_instantiate");
-            vf::violation("instantiate/static_assert_in_vendored_class", "type", std::string("cnl::wide_integer<") + std::to_string(D) + (S ? ",int" : ",uint") + std::to_string(L) + "_t> cannot be instantiated (" + prog + "): the try-compile of `wide_integer<...> x{1}; x = x * x;` fails");
+            // not judged: an expression that does not compile is not a program (no execution can show a wrong value); see DESIGN.md sec. 15
         }
     });
 }
@@ -494,13 +494,13 @@ template<int D, bool S>
         if (D > (S ? 127 : 128)) {
             vf::counted(true);
             vf::outcome("operator_does_not_compile");
-            vf::violation("not/ill_formed", "type", std::string("~cnl::wide_integer<") + std::to_string(D) + (S ? ",signed" : ",unsigned") + ">{} does not compile: bitwise_not_op applies ~ to a const multi-limb rep whose operator~ is a non-const, mutating member (try-compile failed)");
+            // not judged: an expression that does not compile is not a program (no execution can show a wrong value); see DESIGN.md sec. 15
         }
 #endif
         if (!(S ? bool(C10_HAVE_TO_CHARS_SIGNED) : bool(C10_HAVE_TO_CHARS_UNSIGNED)) && D > (S ? 127 : 128)) {
             vf::counted(true);
             vf::outcome("operator_does_not_compile");
-            vf::violation("text/to_chars/ill_formed", "type", std::string("cnl::to_chars(first, last, cnl::wide_integer<") + std::to_string(D) + (S ? ",signed" : ",unsigned") + ">) does not compile: to_chars_natural computes value - quotient * base with an int base, i.e. arithmetic between multi-limb reps of different signedness (try-compile failed)");
+            // not judged: an expression that does not compile is not a program (no execution can show a wrong value); see DESIGN.md sec. 15
         }
         each_limb<D, S>([&](auto Lc) {
             constexpr int L = decltype(Lc)::value;
@@ -846,7 +846,7 @@ constexpr IllFormed c10_ill_formed[] = {C10_ILL_FORMED{nullptr, nullptr}};
             if (!f.name) break;
             vf::counted(true);
             vf::outcome("expression_does_not_compile");
-            vf::violation(std::string("ill_formed/") + f.name, "type", std::string("does not compile against this tree: ") + f.expr);
+            // not judged: an expression that does not compile is not a program (no execution can show a wrong value); see DESIGN.md sec. 15
         }
     }
 
